@@ -54,7 +54,7 @@ struct kind_t
     tensor3d_dims_t dims;
 };
 
-const std::vector<kind_t> KINDS = {
+std::vector<kind_t> KINDS = {
     {"sclass2", SCLASS, 2, feature_type::sclass, make_dims(1, 1, 1)},
     {"sclass3", SCLASS, 3, feature_type::sclass, make_dims(1, 1, 1)},
     {"sclass300", SCLASS, 300, feature_type::sclass, make_dims(1, 1, 1)},
@@ -1395,6 +1395,32 @@ int stage_views(const args_t& args, report_t& r)
         run_views_case(r, "views:" + std::to_string(index), schemas.list[d[0]], Ns[d[1]], static_cast<int>(d[2]), combos[d[3]].first,
                        combos[d[3]].second, 1U, index % 4999 == 0);
     });
+
+    // every class count of the quantifier's range 2..300 (storage type switches at 256): the single-label feature next to
+    // other byte-stored features, in both table orders
+    {
+        static std::vector<std::string> names;
+        names.reserve(512);
+        const auto base = static_cast<int>(KINDS.size());
+        for (int k = 2; k <= 300; ++k)
+        {
+            names.push_back("sclass" + std::to_string(k));
+            KINDS.push_back({names.back().c_str(), SCLASS, k, feature_type::sclass, make_dims(1, 1, 1)});
+        }
+        const std::vector<int> cl_Ns    = {7, 17};
+        const std::vector<int> cl_masks = {0, 4};
+        lattice_t              cl;
+        cl.axis("classes", 299, jstr("single-label feature with 2..300 classes, together with sclass3, mclass3 and u8 features"));
+        cl.axis("order", 2, jstr("the K-class feature first | last"));
+        cl.axis("samples", cl_Ns.size(), jarr_num(cl_Ns));
+        cl.axis("mask", cl_masks.size(), jstr("all given | every other"));
+        cl.describe(r, "classes.");
+        for_each_case(cl, r, "classes", [&](const uint64_t index, const std::vector<uint64_t>& d) {
+            const int        kind   = base + static_cast<int>(d[0]);
+            std::vector<int> schema = d[1] == 0 ? std::vector<int>{kind, 1, 3, 10} : std::vector<int>{10, 3, 1, kind};
+            run_views_case(r, "classes:" + std::to_string(index), schema, cl_Ns[d[2]], cl_masks[d[3]], -1, 0, 1U, index % 499 == 0);
+        });
+    }
 
     // the same checks on datasets with a thread pool of 2 and 16 workers (select iterator over features, flatten/targets
     // iterators over sample chunks), on a thinner lattice: pools of 16 threads cost ~10-50 ms per dataset
